@@ -164,14 +164,32 @@ func config(tier string) *opspace.Config {
 	if thorough {
 		cfg.Inits = []string{"empty", "seeded11", "seeded5"}
 		cfg.MaxDepth = 3
-		cfg.MaxFaulty = 2
+		cfg.MaxFaulty = 1
 	}
 	return cfg
+}
+
+// thoroughExtra are the additional searches of the thorough tier: (B) two
+// faulty operations back to back and (C) fault-free histories of depth 4, both
+// over the quick alphabet from the empty state.
+func thoroughExtra() []*opspace.Config {
+	b := config("quick")
+	b.Inits, b.DepthFor = []string{"empty"}, nil
+	b.MaxDepth, b.MaxFaulty = 2, 2
+	cc := config("quick")
+	cc.Inits, cc.DepthFor = []string{"empty"}, nil
+	cc.MaxDepth, cc.MaxFaulty, cc.FaultKinds = 4, 0, nil
+	return []*opspace.Config{b, cc}
 }
 
 func run(c *core.Ctx) {
 	cfg := config(c.Tier)
 	cfg.Run(c)
+	if c.Thorough() {
+		for _, x := range thoroughExtra() {
+			x.Run(c)
+		}
+	}
 }
 
 type replayData struct {
